@@ -99,6 +99,27 @@ def getSlice {β : Type} (shapes : List (List (List β))) (axis idx : Nat) : Opt
   else
     (allSome (shapes.map (fun g => g[idx]?))).map List.flatten
 
+/-- the guard of `get_slice` (after repair 2f93ac1): `grid = self.shapes[0].grid`,
+    `n_slices = (len(grid[0]), len(grid), len(self.shapes))[axis]`; `none` = IndexError (no shape / no row to measure) -/
+def nSlices {β : Type} (shapes : List (List (List β))) (axis : Nat) : Option Nat :=
+  match shapes.head? with
+  | none => none
+  | some g =>
+    match g.head? with
+    | none => none
+    | some row => some (if axis = 0 then row.length else if axis = 1 then g.length else shapes.length)
+
+/-- `get_slice(axis, index)` with its guard `index >= n_slices → ValueError`, as the name of what happens -/
+def getSliceGuarded {β : Type} (shapes : List (List (List β))) (axis idx : Nat) : Except String (List β) :=
+  match nSlices shapes axis with
+  | none => .error "IndexError"
+  | some n =>
+    if idx ≥ n then .error "ValueError"
+    else
+      match getSlice shapes axis idx with
+      | some l => .ok l
+      | none => .error "IndexError"
+
 /-! ### round sketches and shapes (tables generated from the source) -/
 
 abbrev SketchRow := String × List (List Nat) × List (List Nat) × List Nat × List Nat × List Nat
@@ -169,9 +190,9 @@ def handleBase (op : String) (args : List String) : Option String :=
       -- axes outside 0..2 are C20's business (one-sided guard): no answer
       if axis > 2 then none
       let g ← stackGrid nx ny nz
-      match getSlice g axis idx with
-      | some l => some (showList (l.map showLoft))
-      | none => some "IndexError"
+      match getSliceGuarded g axis idx with
+      | .ok l => some (showList (l.map showLoft))
+      | .error e => some e
   | "c19.delete", [nx, ny, nz, i, j, k] => do
       -- `mesh.delete(stack.grid[k][j][i])`: the operations that are left (the blocks of the assembled mesh, see C12)
       let nx ← nx.toNat?; let ny ← ny.toNat?; let nz ← nz.toNat?; let i ← i.toNat?; let j ← j.toNat?; let k ← k.toNat?
